@@ -22,7 +22,74 @@ import (
 	"github.com/internetarchive/Zeno/internal/verif/vrt/hkit"
 )
 
-const propID = "C10"
+// The same pass is part C of C07 and of C02 (harness/c07c and harness/c02c link to this file). There the shared
+// state in question is not a map: the URL a requisite is resolved to (C07) and the verdict of the discard policy
+// (C02) are computed by several workers at once, and a data race inside the packages that compute them makes
+// the result depend on what another worker is doing. For those parts every race whose accesses lie in the named
+// packages is reported, and C07 judges the requests themselves as well.
+var (
+	propID      = "C10"
+	harnessName = "c10c"
+	// racePkgs: non-empty = report every data race (on a map or not) with an access inside one of these packages
+	racePkgs []string
+)
+
+func init() {
+	switch p := os.Getenv("VERIF_PART"); {
+	case p == "c07c" || os.Getenv("VERIF_HARNESS") == "c07c":
+		propID, harnessName = "C07", "c07c"
+		racePkgs = []string{"/internal/pkg/preprocessor.", "/internal/pkg/postprocessor.", "/internal/pkg/postprocessor/extractor."}
+	case p == "c02c" || os.Getenv("VERIF_HARNESS") == "c02c":
+		propID, harnessName = "C02", "c02c"
+		racePkgs = []string{"/internal/pkg/archiver.", "/internal/pkg/archiver/discard"}
+	}
+}
+
+func inRacePkgs(frames []string) bool {
+	for _, f := range frames {
+		for _, p := range racePkgs {
+			if strings.Contains(f, p) {
+				return true
+			}
+		}
+	}
+	return false
+}
+
+// relSite (C07): pages without a <base>, each in a directory of its own, whose requisites are written as
+// path-relative references that carry the page's number: a request whose directory and file name disagree is a
+// requisite resolved against another worker's page.
+func relSite(o *e2e.Origin, pages int) (seeds []string) {
+	html := [][2]string{{"Content-Type", "text/html; charset=utf-8"}}
+	png := [][2]string{{"Content-Type", "image/png"}}
+	for i := 0; i < pages; i++ {
+		var b strings.Builder
+		fmt.Fprintf(&b, `<!DOCTYPE html><html><head><title>p%d</title><link rel="stylesheet" href="css/s%d.css"></head><body>`, i, i)
+		for k := 0; k < 24; k++ {
+			fmt.Fprintf(&b, `<img src="img/i%d-%d.png">`, i, k)
+			o.Handle(fmt.Sprintf("/d%d/img/i%d-%d.png", i, i, k), e2e.Resp{Status: 200, Header: png, Entity: []byte("\x89PNG\r\n\x1a\n0000")})
+		}
+		fmt.Fprintf(&b, `<script src="../d%d/js/a%d.js"></script><img src="?v=%d"></body></html>`, i, i, i)
+		o.Handle(fmt.Sprintf("/d%d/page.html", i), e2e.Resp{Status: 200, Header: html, Entity: []byte(b.String())})
+		seeds = append(seeds, o.URL(fmt.Sprintf("/d%d/page.html", i)))
+	}
+	return seeds
+}
+
+var relReq = regexp.MustCompile(`^/d(\d+)/(?:img/i|css/s|js/a|page\.html\?v=)(\d+)`)
+
+// mixSite (C02): half of the documents are answered 429 (rejected by the default discard policy), half 200
+func mixSite(o *e2e.Origin, pages int) (seeds []string) {
+	for i := 0; i < pages*4; i++ {
+		st := 200
+		if i%2 == 1 {
+			st = 429
+		}
+		o.Handle(fmt.Sprintf("/t/%d.txt", i), e2e.Resp{Status: st, Header: [][2]string{{"Content-Type", "text/plain"}}, Entity: []byte(fmt.Sprintf("document %d, answered %d", i, st))})
+		seeds = append(seeds, o.URL(fmt.Sprintf("/t/%d.txt", i)))
+	}
+	return seeds
+}
 
 var frameRe = regexp.MustCompile(`(?m)^  (github\.com/internetarchive/Zeno/[^\s(]+)\(`)
 
@@ -137,12 +204,19 @@ func main() {
 			hkit.EngineError("origin: %v", err)
 		}
 		seeds := site(o, pages)
-		dir, err := e2e.Scratch("c10c")
+		workers := 4
+		switch harnessName {
+		case "c07c":
+			seeds, workers = relSite(o, pages), 8
+		case "c02c":
+			seeds, workers = append(seeds, mixSite(o, pages)...), 8
+		}
+		dir, err := e2e.Scratch(harnessName)
 		if err != nil {
 			hkit.EngineError("%v", err)
 		}
 		os.Setenv("GORACE", "halt_on_error=0 exitcode=0")
-		spec := &e2e.ChildSpec{Dir: dir, Conf: e2e.Conf{Job: "verif", Workers: 4, MaxConcurrentAssets: 2, MaxHops: 1, DisableRateLimit: true, InputSeeds: seeds},
+		spec := &e2e.ChildSpec{Dir: dir, Conf: e2e.Conf{Job: "verif", Workers: workers, MaxConcurrentAssets: 2, MaxHops: 1, DisableRateLimit: true, InputSeeds: seeds},
 			Mode: "drain", Quiesce: true, DeadlineS: 90, WatchdogS: 150}
 		res, err := e2e.RunChild(spec, e2e.RunHooks{})
 		if err != nil {
@@ -157,7 +231,7 @@ func main() {
 			sig := "fatal:concurrent-map-access"
 			if !seen[sig] {
 				seen[sig] = true
-				hkit.Report(propID, sig, map[string]any{"engine": "e2e", "harness": "c10c", "race": raceReport{Sig: sig, Map: true, Text: tailOf(stderr, 6000)}}, "the crawler died: "+res.Panic)
+				hkit.Report(propID, sig, map[string]any{"engine": "e2e", "harness": harnessName, "race": raceReport{Sig: sig, Map: true, Text: tailOf(stderr, 6000)}}, "the crawler died: "+res.Panic)
 			}
 		} else if res.TimedOut || (res.ExitCode != 0 && res.ExitCode != 66) {
 			hkit.EngineError("the race-pass crawl did not end normally: exit=%d signal=%s timed-out=%v %s\n%s", res.ExitCode, res.Signal, res.TimedOut, res.Panic, tailOf(stderr, 3000))
@@ -165,7 +239,26 @@ func main() {
 		if o.Requests() < len(seeds) {
 			hkit.EngineError("the race-pass crawl made %d requests for %d seeds", o.Requests(), len(seeds))
 		}
+		if harnessName == "c07c" {
+			for _, ex := range o.Log() {
+				if m := relReq.FindStringSubmatch(ex.Path); m != nil && m[1] != m[2] && !seen["wrong-page"] {
+					seen["wrong-page"] = true
+					hkit.Report(propID, "requisite-resolved-against-another-page", map[string]any{"engine": "e2e", "harness": harnessName, "race": raceReport{Sig: "requisite-resolved-against-another-page", Text: ex.Path}},
+						fmt.Sprintf("request %s: a requisite of page /d%s/page.html was requested in the directory of page /d%s/page.html, which another worker was handling", ex.Path, m[2], m[1]))
+				}
+			}
+		}
 		for _, r := range parse(stderr) {
+			if len(racePkgs) > 0 {
+				if inRacePkgs(r.Frames) && !seen[r.Sig] {
+					seen[r.Sig] = true
+					hkit.Report(propID, r.Sig, map[string]any{"engine": "e2e", "harness": harnessName, "race": r},
+						fmt.Sprintf("data race between workers inside %s: what they compute (the URL a requisite is resolved to / the verdict on a response) depends on what another worker is doing at that moment", strings.Join(r.Frames, " / ")))
+				} else if !inRacePkgs(r.Frames) {
+					plain[r.Sig] = true
+				}
+				continue
+			}
 			if !r.Map {
 				plain[r.Sig] = true // reported as an observation: a race on a plain word does not by itself crash the process
 				continue
@@ -174,7 +267,7 @@ func main() {
 				continue
 			}
 			seen[r.Sig] = true
-			hkit.Report(propID, r.Sig, map[string]any{"engine": "e2e", "harness": "c10c", "race": r},
+			hkit.Report(propID, r.Sig, map[string]any{"engine": "e2e", "harness": harnessName, "race": r},
 				fmt.Sprintf("unsynchronised concurrent access to a map in %s (a concurrent map write is a run-time fatal error that no recover() contains)", strings.Join(r.Frames, " / ")))
 		}
 		os.RemoveAll(dir)
@@ -184,11 +277,18 @@ func main() {
 		obs = append(obs, s)
 	}
 	sort.Strings(obs)
+	what := ""
+	switch harnessName {
+	case "c07c":
+		what = fmt.Sprintf("C07: 8 workers over %d pages without <base>, 27 path-relative requisites each; a request in another page's directory, or any data race with an access inside the preprocessor / postprocessor / extractor packages, is a violation. ", pages)
+	case "c02c":
+		what = fmt.Sprintf("C02: 8 workers; the site of C10 plus %d text documents answered 200 and 429 in alternation; any data race with an access inside the archiver packages (the discard policy included) is a violation. ", pages*4)
+	}
 	hkit.Evidence(propID, a.Tier, "exploration", map[string]any{
 		"evaluations": requests, "distinct_nontrivial": pages * 4, "samples": []any{obs}, "exhaustive": false,
-		"explanation": fmt.Sprintf("part C (race pass, a sample of schedules - not an enumeration): %d crawl(s) of the real crawler built with the race detector, 4 workers, max-hops 1, over a loopback site of %d HTML pages (each with its own <base href>, relative anchors, style url(), JSON-LD), %d JSON, %d XML and %d M3U8 documents; %d requests served; every data race on a map inside Zeno's packages is a violation, races on plain words are listed as observations (%d)", runs, pages, pages, pages, pages, requests, len(obs)),
+		"explanation": what + fmt.Sprintf("part C (race pass, a sample of schedules - not an enumeration): %d crawl(s) of the real crawler built with the race detector, 4 workers, max-hops 1, over a loopback site of %d HTML pages (each with its own <base href>, relative anchors, style url(), JSON-LD), %d JSON, %d XML and %d M3U8 documents; %d requests served; every data race on a map inside Zeno's packages is a violation, races on plain words are listed as observations (%d)", runs, pages, pages, pages, pages, requests, len(obs)),
 	}, []string{"part C: the race detector sees a race only if both accesses happen in the run; which accesses happen depends on the OS scheduler"}, hkit.Violations())
-	fmt.Printf("C10 %s (part C, race pass): %d crawl(s), %d requests served, %d map-race signatures, %d plain-word races observed\n", a.Tier, runs, requests, len(seen), len(obs))
+	fmt.Printf(propID+" %s (part C, race pass): %d crawl(s), %d requests served, %d %s, %d other races observed\n", a.Tier, runs, requests, len(seen), map[bool]string{true: "violations (races inside the judged packages, misdirected requests)", false: "map-race signatures"}[len(racePkgs) > 0], len(obs))
 	hkit.Exit()
 }
 
